@@ -407,6 +407,15 @@ class ProcProxyThread(threading.Thread):
         thread.  This is part of the `threading.Thread` interface and should
         not be called directly.
         """
+        try:
+            self._run()
+        finally:
+            # Whatever killed the thread (EBADF on an already closed pipe, a
+            # closed std stream, ...): pollers wait for a return code.
+            if self.returncode is None:
+                self.returncode = 1
+
+    def _run(self):
         if self.f is None:
             self._close_devnull()
             return
